@@ -306,6 +306,11 @@ func (rt *Runtime) validator(ctx context.Context, database, username, password s
 	return ctx, false, nil
 }
 
+// userStatements / userPortals are what an application's own cache types look
+// like: they embed the default implementations (and so inherit Close).
+type userStatements struct{ *wire.DefaultStatementCache }
+type userPortals struct{ *wire.DefaultPortalCache }
+
 func (rt *Runtime) buildServer() (*wire.Server, error) {
 	cfg := &rt.C.Server
 	opts := []wire.OptionFn{wire.Logger(slog.New(discardHandler{}))}
@@ -346,6 +351,10 @@ func (rt *Runtime) buildServer() (*wire.Server, error) {
 	}
 	if cfg.Version != "" {
 		opts = append(opts, wire.Version(cfg.Version))
+	}
+	if cfg.UserCaches {
+		opts = append(opts, wire.Statements(func() wire.StatementCache { return &userStatements{&wire.DefaultStatementCache{}} }),
+			wire.Portals(func() wire.PortalCache { return &userPortals{&wire.DefaultPortalCache{}} }))
 	}
 	var lateTLS func(*wire.Server)
 	if cfg.TLS != "" {
